@@ -42,6 +42,22 @@ mod tests;
 
 const MAX_SEGMENT_SIZE: u64 = 64 * 1024 * 1024; // 64 MiB
 
+#[cfg(feature = "verif-hooks")]
+thread_local! {
+    /// Verification hook: segment size used by rollback logs opened on this thread.
+    pub(crate) static VERIF_SEGMENT_SIZE: std::cell::Cell<Option<u64>> = std::cell::Cell::new(None);
+}
+
+#[cfg(feature = "verif-hooks")]
+fn max_segment_size() -> u64 {
+    VERIF_SEGMENT_SIZE.with(|c| c.get()).unwrap_or(MAX_SEGMENT_SIZE)
+}
+
+#[cfg(not(feature = "verif-hooks"))]
+fn max_segment_size() -> u64 {
+    MAX_SEGMENT_SIZE
+}
+
 struct InMemory {
     /// The log of deltas that we have accumulated so far.
     ///
@@ -115,7 +131,7 @@ impl Rollback {
             db_dir_path,
             db_dir_fd,
             "rollback".to_string(),
-            MAX_SEGMENT_SIZE,
+            max_segment_size(),
             rollback_start_active.into(),
             rollback_end_active.into(),
             |record_id, payload| {
